@@ -124,6 +124,34 @@ func c15Check(cs c15Case) string {
 		byText[s.Text] = s
 	}
 	switch cs.Kind {
+	case "aliased":
+		// elements written as aliases of anchored scalars: an alias stands for its anchored node, so the sorted values are
+		// those of the same sequence written out (Expr says which of the elements are aliases)
+		x, y, z := cs.Els[0], cs.Els[1], cs.Els[2]
+		el := func(i int, text, name string) string {
+			if cs.Expr[i] == 'a' {
+				return "*" + name
+			}
+			return text
+		}
+		doc := fmt.Sprintf("d: [&p %s, &q %s, &r %s]\ns: [%s, %s, %s]\n", x, y, z, el(0, x, "p"), el(1, y, "q"), el(2, z, "r"))
+		for _, op := range []string{"sort", "sort_by(.)", "[.[] | {\"k\": .}] | sort_by(.k) | map(.k)"} {
+			got, err, pan := c15Run1(".s | "+op, doc)
+			want, werr, wpan := c15Run1(op, fmt.Sprintf("[%s, %s, %s]", x, y, z))
+			if pan != nil || wpan != nil {
+				return fmt.Sprintf("aliased: %s on\n%spanics: %v %v", op, doc, pan, wpan)
+			}
+			if (err != nil) != (werr != nil) {
+				return fmt.Sprintf("aliased: %s on\n%serror %v, on the sequence written out error %v", op, doc, err, werr)
+			}
+			if err != nil {
+				continue
+			}
+			if g, w := impl.ToV(got[0]).String(), impl.ToV(want[0]).String(); g != w {
+				return fmt.Sprintf("aliased: %s on\n%sgives the values %s, on the sequence written out %s", op, doc, g, w)
+			}
+		}
+		return ""
 	case "pair":
 		x, y := cs.Els[0], cs.Els[1]
 		xy, bad := c15Lt(x, y)
@@ -403,7 +431,7 @@ func c15Run(c *fw.Ctx) error {
 	if c.Thorough() {
 		seqLen = 4
 	}
-	c.Res.Bound = fmt.Sprintf("all pairs and triples of %d scalars; all sequences of length <= %d over them; all 2^16 two-key patterns of length 16 (thorough: + 3^10 three-key patterns of length 14 prefix-closed); all key permutations of <= 4 keys for sort_keys; streams: every ordered pair (and triples over a core) of 44 short sequences through one evaluation of min, max, sort, unique, sort_keys, a comparison", len(al), seqLen)
+	c.Res.Bound = fmt.Sprintf("all pairs and triples of %d scalars; every triple over a 12-scalar core with its elements written as aliases (6 alias patterns); all sequences of length <= %d over them; all 2^16 two-key patterns of length 16 (thorough: + 3^10 three-key patterns of length 14 prefix-closed); all key permutations of <= 4 keys for sort_keys; streams: every ordered pair (and triples over a core) of 44 short sequences through one evaluation of min, max, sort, unique, sort_keys, a comparison", len(al), seqLen)
 	var idx int64
 	do := func(cs c15Case, order int64) {
 		idx++
@@ -443,6 +471,23 @@ func c15Run(c *fw.Ctx) error {
 	for i, x := range al {
 		for j, y := range al {
 			do(c15Case{Kind: "pair", Els: []string{x.Text, y.Text}}, int64(i*100+j))
+		}
+	}
+	// aliases as elements: every triple over a core of the alphabet x every non-empty choice of which elements are aliases
+	core := []c15Scalar{}
+	for _, s := range al {
+		switch s.Text {
+		case "null", "true", "0", "2", "10", "-1", "0x10", "1.5", "-.inf", `"a"`, `"10"`, `""`:
+			core = append(core, s)
+		}
+	}
+	for i, x := range core {
+		for j, y := range core {
+			for k, z := range core {
+				for _, which := range []string{"aaa", "avv", "vav", "vva", "aav", "vaa"} {
+					do(c15Case{Kind: "aliased", Els: []string{x.Text, y.Text, z.Text}, Expr: which}, int64(i*10000+j*100+k))
+				}
+			}
 		}
 	}
 	for i, x := range al {
